@@ -204,4 +204,3 @@ func vpH_c05_step_str() {
 	}
 	vpAssert(len(m.index) == live, "string keys: index holds nothing else")
 }
-
